@@ -6,6 +6,11 @@ a correspondence check: the real onnx_ir.save / _shard_tensors / _align_offset a
 configurations and their observations are embedded in case files that Coq evaluates against the model.
 On any broken obligation or mismatch the property oracle (save -> load -> compare, range checks) searches
 for a concrete failing configuration.
+
+Gen/C07LoopsGen.v (generate_loops, tools/translate_loops.py) is the statement-by-statement translation of the source
+loops (_compute_external_data_info, the offset loop of convert_tensors_to_external, both _shard_tensors, the
+externalisation test of unload_from_model); C07/GenEquiv.v proves them equal to the model functions for every input,
+so the C07 theorems are about the loops as they are in the source on this run.
 """
 
 from __future__ import annotations
@@ -36,6 +41,97 @@ def generate(ck) -> bool:
         ck.gen_failed("C07Gen", e)
         return False
     ck.gen("C07Gen", text)
+    return generate_loops(ck)
+
+
+ST_SRC = os.path.join(REPO, "src", "onnx_ir", "_safetensors", "__init__.py")
+
+
+def generate_loops(ck) -> bool:
+    """Gen/C07LoopsGen.v: the accumulator loops of the layout code, translated statement by statement
+    (tools/translate_loops.py): _compute_external_data_info, the offset loop of convert_tensors_to_external,
+    external_data._shard_tensors, _safetensors._shard_tensors, and the threshold comparison of unload_from_model.
+    C07/GenEquiv.v proves each equal to the hand model the theorems are about."""
+    import ast
+
+    import translate_loops as L
+    try:
+        mod = ast.parse(open(SRC).read())
+        stmod = ast.parse(open(ST_SRC).read())
+        known = {"_align_offset": ("align_offset", ["Z", "Z", "option Z", "Z"], "Z")}
+        out = [T.HEADER.replace("Base.Exn.", "Base.Exn Base.PyList Gen.C07Gen."),
+               "Definition info : Type := (Z * Z)%type.   (* _ExternalDataInfo without its name: (offset, length) *)\n",
+               "Section Loops.\n  Context {A : Type} (nbytes : A -> Z).\n"]
+        # _compute_external_data_info(tensor, current_offset, alignment, align_threshold)
+        ci = T.find_function(mod, "_compute_external_data_info")
+        if [a.arg for a in ci.args.args] != ["tensor", "current_offset", "alignment", "align_threshold"]:
+            raise T.Unsupported("_compute_external_data_info: parameter list changed")
+        out.append(L.translate_straight(ci, "gen_compute_info", [("current_offset", "Z"), ("alignment", "option Z"),
+                                                                 ("align_threshold", "Z")], known))
+        # _ExternalDataInfo(name, offset, length): field order
+        cls = [n for n in mod.body if isinstance(n, ast.ClassDef) and n.name == "_ExternalDataInfo"]
+        fields = [x.target.id for x in cls[0].body if isinstance(x, ast.AnnAssign) and isinstance(x.target, ast.Name)] \
+            if cls else []
+        if fields != ["name", "offset", "length"] or [ast.unparse(d) for d in cls[0].decorator_list] != ["dataclasses.dataclass"] \
+                or any(isinstance(x, ast.FunctionDef) for x in cls[0].body):
+            raise T.Unsupported("_ExternalDataInfo is no longer the dataclass (name, offset, length)")
+        # the offset loop of convert_tensors_to_external
+        cv = T.find_function(mod, "convert_tensors_to_external")
+        body = [s for s in cv.body if not (isinstance(s, ast.Expr) and isinstance(s.value, ast.Constant))]
+        li = [i for i, s in enumerate(body) if isinstance(s, ast.For)]
+        if len(li) != 1:
+            raise T.Unsupported("convert_tensors_to_external: expected one for loop")
+        i = li[0]
+        region = ast.FunctionDef(name="convert_tensors_to_external", args=cv.args, body=body[i - 2:i + 1],
+                                 decorator_list=[], returns=None)
+        known2 = dict(known, _compute_external_data_info=("gen_compute_info", ["item", "Z", "option Z", "Z"], "info"))
+        out.append(L.translate_fold(region, "gen_layout", [("alignment", "option Z"), ("align_threshold", "Z")], known2,
+                                    result="external_data_infos",
+                                    comment="convert_tensors_to_external (offset loop)"))
+        # glue around the loop: options validated first; the infos computed by the loop are what is written and recorded
+        glue = [ast.unparse(s) for s in body[:i - 2] + body[i + 1:]]
+        want_glue = [
+            "_validate_write_options(max_workers, max_in_flight_bytes, alignment, align_threshold)",
+            "path = os.path.join(base_dir, relative_path)",
+            "_write_external_data(tensors, external_data_infos, path, callback=callback, max_workers=max_workers, "
+            "max_in_flight_bytes=max_in_flight_bytes, budget=_budget, tensor_write_locks=_tensor_write_locks)",
+            "return [_create_external_tensor(tensor, external_info, base_dir, relative_path) for tensor, external_info "
+            "in zip(tensors, external_data_infos, strict=True)]",
+        ]
+        if glue != want_glue:
+            raise T.Unsupported("convert_tensors_to_external: statements around the offset loop changed: " + repr(glue)[:400])
+        # external_data._shard_tensors
+        sh = T.find_function(mod, "_shard_tensors")
+        if [a.arg for a in sh.args.args] != ["tensors", "max_shard_size_bytes", "alignment", "align_threshold"]:
+            raise T.Unsupported("_shard_tensors: parameter list changed")
+        out.append(L.translate_fold(sh, "gen_shard_tensors", [("max_shard_size_bytes", "Z"), ("alignment", "option Z"),
+                                                              ("align_threshold", "Z")], known,
+                                    comment="external_data._shard_tensors"))
+        # _safetensors._shard_tensors: `if max_shard_size_bytes is None: return [list(tensors)]` then the loop
+        st = T.find_function(stmod, "_shard_tensors")
+        sbody = [s for s in st.body if not (isinstance(s, ast.Expr) and isinstance(s.value, ast.Constant))]
+        if [a.arg for a in st.args.args] != ["tensors", "max_shard_size_bytes"] or not sbody or \
+                ast.unparse(sbody[0]) != "if max_shard_size_bytes is None:\n    return [list(tensors)]":
+            raise T.Unsupported("_safetensors._shard_tensors: header changed")
+        rest = ast.FunctionDef(name="_shard_tensors", args=st.args, body=sbody[1:], decorator_list=[], returns=None)
+        out.append(L.translate_fold(rest, "gen_st_shard_some", [("max_shard_size_bytes", "Z")], {},
+                                    comment="_safetensors._shard_tensors (after the None case)"))
+        out.append("Definition gen_st_shard (tensors : list A) (max_shard_size_bytes : option Z) : list (list A) :=\n"
+                   "    match max_shard_size_bytes with None => [tensors] | Some m => gen_st_shard_some tensors m end.\n")
+        out.append("End Loops.\n")
+        # unload_from_model: which initializers become external
+        un = T.find_function(mod, "unload_from_model")
+        conds = [ast.unparse(n.test) for n in ast.walk(un) if isinstance(n, ast.If)
+                 and "initializers_to_become_external.append(value)" in [ast.unparse(x) for x in n.body]]
+        if conds != ["value.const_value.nbytes > size_threshold_bytes"]:
+            raise T.Unsupported("unload_from_model: externalisation condition changed: " + repr(conds))
+        out.append("(* translated from unload_from_model: `value.const_value.nbytes > size_threshold_bytes` *)\n"
+                   "Definition gen_becomes_external (nbytes size_threshold_bytes : Z) : bool := "
+                   "(size_threshold_bytes <? nbytes)%Z.\n")
+    except (T.Unsupported, SyntaxError, OSError, IndexError, AttributeError) as e:
+        ck.gen_failed("C07LoopsGen", e)
+        return False
+    ck.gen("C07LoopsGen", "\n".join(out))
     return True
 
 
@@ -597,6 +693,9 @@ def run(ck) -> None:
     logging.disable(logging.WARNING)
     ck.trust("Coq 8.16.1 kernel (coqc; vm_compute in case files; no native_compute)",
              "tools/translate.py (fail-closed ast->Gallina translator; output cross-checked on a grid)",
+             "tools/translate_loops.py (fail-closed translation of the layout/shard loops to Gallina folds: a tensor is "
+             "abstracted to its nbytes, _ExternalDataInfo.name is dropped, logging calls are skipped; Base/PyList.v gives "
+             "append / xss[-1].append / bool(xss[-1]) their list meaning)",
              "harness/props/c07.py (generators, observation of save/load, Coq literal printer)",
              "modelled not verified: tensor tobytes()/tofile() (C04), file system, onnx.save/load, safetensors writer")
     ck.assumptions += ["little-endian POSIX platform", "numpy/onnx as installed in /venv"]
